@@ -224,6 +224,32 @@ def generate(repo):
         refuse(cond, '_search: unexpected match test %s' % src)
     out.append('(* %s:%d  %s *)' % (SOURCES[0], cond.lineno, src))
     out.append('Definition cas_req_name_limit : Z := %s.   (* -1: the requested name is not truncated *)' % zlit(variants[src]))
+    # what happens to the data of a skipped file
+    skipped = [ast.unparse(x) for x in cond.orelse]
+    if 'self.tapestream.skip_data()' in skipped:
+        if skipped[-1] != 'self.tapestream.skip_data()' or skipped.count('self.tapestream.skip_data()') != 1:
+            refuse(cond, '_search: skip_data() must be the last statement of the Skipped branch')
+        sk = m.find('CassetteStream.skip_data')
+        body = [ast.unparse(x) for x in stmts_of(sk)]
+        if len(body) != 1 or not isinstance(stmts_of(sk)[0], ast.If):
+            refuse(sk, 'skip_data: unexpected body')
+        iff = stmts_of(sk)[0]
+        if ast.unparse(iff.test) != "self.filetype in (b'M', b'B', b'P')" or iff.orelse or len(iff.body) != 1 \
+                or not isinstance(iff.body[0], ast.Try):
+            refuse(sk, 'skip_data: expected `if self.filetype in (M, B, P): try: ...`')
+        trs = iff.body[0]
+        hs = [(ast.unparse(h.type), [ast.unparse(x) for x in h.body]) for h in trs.handlers]
+        if [ast.unparse(x) for x in trs.body] != ['self._fill_record_buffer()'] or len(hs) != 2 \
+                or hs[0] != ('EndOfTape', ['raise']) or hs[1][0] != 'CassetteIOError' \
+                or any(not x.startswith('logging.') for x in hs[1][1]) or trs.orelse or trs.finalbody:
+            refuse(sk, 'skip_data: unexpected try block')
+        skips = 'true'
+    else:
+        if any('skip' in x or '_fill_record_buffer' in x or '.read(' in x for x in skipped):
+            refuse(cond, '_search: unexpected statements in the Skipped branch: %r' % skipped)
+        skips = 'false'
+    out.append('(* _search passes over the data record of a skipped B/P/M file by reading it (skip_data) *)')
+    out.append('Definition cas_search_skips_binary : bool := %s.' % skips)
     if len(tr.handlers) != 1 or ast.unparse(tr.handlers[0].type) != 'EndOfTape':
         refuse(tr, '_search: expected a single `except EndOfTape` handler')
     hb = [ast.unparse(s) for s in tr.handlers[0].body]
@@ -236,4 +262,57 @@ def generate(repo):
         refuse(tr.handlers[0], '_search: unexpected end-of-tape handler %r' % hb)
     out.append('(* %s:%d  except EndOfTape: %s *)' % (SOURCES[0], tr.handlers[0].lineno, '; '.join(hb)))
     out.append('Definition cas_search_eot_closes : bool := %s.' % closes)
+    # ---- bit layer of CAS images: CRC arithmetic and framing constants
+    t.function('crc', coqname='cas_crc_xor', param_types={'rem': 'Z', 'd': 'Z'},
+               stmts=(r'^rem \^= d << 8', r'^rem \^= d << 8'), ret=['rem'])
+    t.function('crc', coqname='cas_crc_bit', param_types={'rem': 'Z'},
+               stmts=(r'^rem <<= 1', r'^rem &= 0xffff'), ret=['rem'])
+    fn = m.find('crc')
+    body = [ast.unparse(x) for x in stmts_of(fn)]
+    if len(body) != 3 or not body[0].startswith('rem = ') or body[2] != 'return rem ^ 65535' \
+            or not isinstance(stmts_of(fn)[1], ast.For):
+        refuse(fn, 'crc: unexpected shape %r' % body)
+    out.append('Definition cas_crc_init : Z := %d.' % int_const(stmts_of(fn)[0].value, 'crc init'))
+    out.append('Definition cas_crc_final : Z := 65535.')
+    outer = stmts_of(fn)[1]
+    if ast.unparse(outer.iter) != 'bytearray(data)' or ast.unparse(outer.target) != 'd' or len(outer.body) != 2 \
+            or not isinstance(outer.body[1], ast.For) or ast.unparse(outer.body[1].iter) != 'range(8)' \
+            or len(outer.body[1].body) != 3:
+        refuse(outer, 'crc: unexpected loops')
+    fn = m.find('CassetteStream._write_block')
+    srcs = [ast.unparse(x) for x in stmts_of(fn)]
+    if srcs[1:] != ['for b in iterchar(data):\n    self.bitstream.write_byte(ord(b))', 'crc_word = crc(data)',
+                    "lo, hi = (ord(_b) for _b in iterchar(struct.pack('<H', crc_word)))",
+                    'self.bitstream.write_byte(hi)', 'self.bitstream.write_byte(lo)']:
+        refuse(fn, '_write_block: unexpected body %r' % srcs)
+    fn = m.find('CassetteStream._read_block')
+    srcs = ' ; '.join(ast.unparse(x) for x in stmts_of(fn))
+    for want in ('bytes0, bytes1 = (self.bitstream.read_byte(), self.bitstream.read_byte())',
+                 'crc_given = bytes0 * 256 + bytes1', 'crc_calc = crc(data)', 'if crc_given == crc_calc:\n    return data'):
+        if want not in srcs:
+            refuse(fn, '_read_block: missing `%s`' % want)
+    fn = m.find('TapeBitStream.write_leader')
+    if [ast.unparse(x) for x in stmts_of(fn)] != ['for _ in range(256):\n    self.write_byte(255)', 'self.write_bit(0)',
+                                                  'self.write_byte(22)']:
+        refuse(fn, 'write_leader: unexpected body')
+    out.append('Definition cas_leader_bytes : Z := 256.')
+    out.append('Definition cas_sync_byte : Z := %d.' % m.const_value('TapeBitStream.sync_byte'))
+    if m.const_value('TapeBitStream.sync_byte') != 22:
+        refuse(fn, 'sync byte written (22) differs from TapeBitStream.sync_byte')
+    fn = m.find('TapeBitStream.write_trailer')
+    if [ast.unparse(x) for x in stmts_of(fn)] != ['for _ in range(30):\n    self.write_bit(1)', 'self.write_bit(0)']:
+        refuse(fn, 'write_trailer: unexpected body')
+    out.append('Definition cas_trailer_ones : Z := 30.')
+    fn = m.find('TapeBitStream.read_leader')
+    cmp_ = one(find_all(fn, lambda n: isinstance(n, ast.Compare) and ast.unparse(n.left) == 'counter'), 'counter test', fn)
+    if ast.unparse(cmp_) != 'counter >= 512':
+        refuse(cmp_, 'read_leader: unexpected leader length test')
+    out.append('Definition cas_min_leader_bits : Z := 512.')
+    fn = m.find('TapeBitStream.write_byte')
+    if 'bits = [1 if byte & 128 >> i != 0 else 0 for i in range(8)]' not in [ast.unparse(x) for x in stmts_of(fn)]:
+        refuse(fn, 'write_byte: unexpected bit order')
+    fn = m.find('TapeBitStream.read_byte')
+    if 'byte += bit * 128 >> i' not in ast.unparse(fn):
+        refuse(fn, 'read_byte: unexpected bit order')
+    out.append('Definition cas_intro : list Z := [%s].' % '; '.join(str(x) for x in m.const_value('TapeBitStream.intro')))
     return HEADER + '\n'.join(out) + '\n'
